@@ -14,7 +14,7 @@ from .nets import intlike
 
 AMBIGUOUS = [
     "add_edge([]) creates an empty edge (docstring: raises XGIError; from_hif_dict and dual depend on empty edges)",
-    "add_edges_from with an empty FIRST element in formats 1-4 raises IndexError from format detection (docstring: empty edges are skipped); the model marks the outcome 'unspecified'",
+    "add_edges_from stores empty edges in every format (docstring: empty edges are skipped; add_edge, from_hif_dict and dual rely on empty edges)",
     "node creation order inside one edge follows set(members) iteration, which the model reproduces by the same construction",
     "merge_duplicate_edges: duplicate classes are processed in order of first occurrence; merged edges are appended after the surviving ones",
     "set_*_attributes(values=scalar) with name=None raises XGIError; dict keyed by unknown ids warns and skips",
@@ -184,11 +184,6 @@ class RefH:
             fmt = 3
         else:
             fmt = 2
-        probe = first if fmt == 1 else first[0]
-        if len(list(first)) == 0 or (fmt == 1 and False):
-            raise Unspecified("empty first element")
-        if fmt != 1 and len(list(probe)) == 0 and False:
-            raise Unspecified("empty first member list")
         for e in eb:
             if fmt == 1:
                 members, idx, eattr, auto = e, None, {}, True
